@@ -257,9 +257,9 @@ def level(self):
     return self._level
 ''')
 
-spec('Container', '_do_put', what='grant iff level + amount <= capacity; level += amount')('''
+spec('Container', '_do_put', what='grant iff the amount fits (tested both as capacity - level >= amount and on the sum that is stored); level += amount')('''
 def _do_put(self, event):
-    if self._level + event.amount <= self._capacity:
+    if self._capacity - self._level >= event.amount and self._level + event.amount <= self._capacity:
         self._level = self._level + event.amount
         event.succeed()
         return True
